@@ -36,7 +36,7 @@ def _type(n):
 
 
 class Norm:
-    def __init__(self, f, env=None, inline=True, names=None, accessors=False, keep=()):
+    def __init__(self, f, env=None, inline=True, names=None, accessors=False, keep=(), assume=None):
         self.f = f
         self.env = env or {}
         self.inline = inline
@@ -45,6 +45,8 @@ class Norm:
         self.subst = {}                   # parameter name -> canonical string of the argument (inlined helper)
         self.this_prefix = ''             # object the inlined method was called on ('' = the caller's own object)
         self.keep = set(keep)             # locals never replaced by their definition
+        self.assume = assume or {}        # normalised atom -> truth value taken as given (case analysis)
+        self._in_assume = False
         self.accessors = accessors        # also read through field accessors `T f() const { return <expr over fields>; }`
 
     # ---- stripping ----------------------------------------------------------------------------------------------------
@@ -189,7 +191,7 @@ class Norm:
         for st in body[:-1]:
             if st['k'] == 'DeclStmt' and all(v['k'] == 'VarDecl' and single_def(callee, v['id']) is not None for v in kids(st)):
                 continue
-            if st.get('mac') == 'assert' or (st['k'] == 'CXXStaticCastExpr' and st.get('ck') == 'ToVoid'):
+            if st.get('mac') in ('assert', 'ASSERT', 'ASSERT_WITH_MSG') or (st['k'] == 'CXXStaticCastExpr' and st.get('ck') == 'ToVoid'):
                 continue
             return None
         ks = kids(n)
@@ -251,6 +253,16 @@ class Norm:
                     if (a is not None and a != 0) or (b is not None and b != 0):
                         return 1
                     return 0 if a == 0 and b == 0 else None
+                if (a is None or b is None) and op in _CMP and self.assume and not self._in_assume:
+                    self._in_assume = True
+                    try:
+                        at = self.atom(n)
+                    finally:
+                        self._in_assume = False
+                    if at == TAUT:
+                        return 1
+                    if at == FALSE:
+                        return 0
                 if a is None or b is None:
                     return None
                 if op in _CMP:
@@ -315,7 +327,14 @@ class Norm:
                 if rs is None or rs['k'] != 'ReturnStmt':
                     return None
                 return sub.cval(kids(rs)[0])
-            if st['k'] in ('NullStmt',) or st.get('mac') == 'assert' or st['k'] == 'CXXStaticCastExpr':
+            if st['k'] in ('NullStmt',) or st.get('mac') in ('assert', 'ASSERT', 'ASSERT_WITH_MSG') or st['k'] == 'CXXStaticCastExpr':
+                continue
+            if st['k'] == 'DeclStmt':
+                for v in kids(st):
+                    if v['k'] == 'VarDecl' and kids(v):
+                        val = sub.cval(kids(v)[0])
+                        if val is not None:
+                            sub.env[v['name']] = val
                 continue
             return None
         return None
@@ -340,6 +359,40 @@ class Norm:
                     if bb is None:
                         return (ba, oa - ob)
         return (self.s(m, _nolin=True), 0)
+
+    def linear(self, n):
+        """({term string: coefficient}, constant) when n is a linear combination with constant coefficients, else None"""
+        c = self.cval(n)
+        if c is not None:
+            return ({}, c)
+        m = self.resolve(n)
+        k = m['k']
+        ks = kids(m) if k != 'CXXOperatorCallExpr' else kids(m)[1:]
+        op = m.get('op')
+        if k in ('BinaryOperator', 'CXXOperatorCallExpr') and op in ('+', '-') and len(ks) == 2:
+            a, b = self.linear(ks[0]), self.linear(ks[1])
+            if a is None or b is None:
+                return None
+            sg = 1 if op == '+' else -1
+            t = dict(a[0])
+            for key, v in b[0].items():
+                t[key] = t.get(key, 0) + sg * v
+            return ({key: v for key, v in t.items() if v}, a[1] + sg * b[1])
+        if k in ('BinaryOperator', 'CXXOperatorCallExpr') and op == '*' and len(ks) == 2:
+            a, b = self.linear(ks[0]), self.linear(ks[1])
+            if a is None or b is None:
+                return None
+            if not a[0]:
+                return ({key: v * a[1] for key, v in b[0].items()}, a[1] * b[1])
+            if not b[0]:
+                return ({key: v * b[1] for key, v in a[0].items()}, a[1] * b[1])
+            return None
+        if k == 'UnaryOperator' and op == '-':
+            a = self.linear(kids(m)[0])
+            return None if a is None else ({key: -v for key, v in a[0].items()}, -a[1])
+        if k == 'UnaryOperator' and op == '+':
+            return self.linear(kids(m)[0])
+        return ({self.s(m, _nolin=True): 1}, 0)
 
     def s(self, n, _nolin=False):
         c = self.cval(n)
@@ -459,6 +512,16 @@ class Norm:
         return [(self, m)]
 
     def atom(self, n, truth=True):
+        at = self._atom(n, truth)
+        if self.assume and at not in (TAUT, FALSE):
+            if at in self.assume:
+                return TAUT if self.assume[at] else FALSE
+            neg = self._atom(n, not truth)
+            if neg in self.assume:
+                return FALSE if self.assume[neg] else TAUT
+        return at
+
+    def _atom(self, n, truth=True):
         c = self.cval(n)
         if c is not None:
             return TAUT if bool(c) == truth else FALSE
@@ -624,6 +687,143 @@ def cond_value(nm, node, val):
     if m['k'] == 'UnaryOperator' and m.get('op') == '!':
         return not cond_value(nm, kids(m)[0], val)
     return atom_value(nm.atom(m), val)
+
+
+class SymLin:
+    """symbolic evaluation of small arithmetic code over one unknown x: values are constants ('c', k) or x plus a constant
+    ('x', k); conditions are decided from case facts about x ({'mate': bool, 'pos': bool}: x is a mate score / x is positive);
+    a mate score dwarfs any constant offset, so the sign of x + k is the sign of x in the mate cases. Anything else: Unknown."""
+
+    def __init__(self, prog, facts, mate_lo):
+        self.prog = prog
+        self.facts = facts
+        self.mate_lo = mate_lo          # smallest |mate score|
+
+    def val(self, f, n, binds, depth=0):
+        n = strip_casts(n)
+        while n is not None and n.get('k') in CASTS and kids(n):
+            n = strip_casts(kids(n)[-1])
+        r = n.get('ref') or {}
+        if r.get('k') in ('Local', 'Parm') and r['n'] in binds:
+            return binds[r['n']]
+        if isinstance(n.get('cv'), int):
+            return ('c', n['cv'])
+        k = n['k']
+        if k == 'ConditionalOperator':
+            c, a, b = kids(n)
+            return self.val(f, a if self.cond(f, c, binds, depth) else b, binds, depth)
+        if k in ('BinaryOperator', 'CXXOperatorCallExpr') and n.get('op') in ('+', '-'):
+            ks = kids(n) if k == 'BinaryOperator' else kids(n)[1:]
+            a, b = self.val(f, ks[0], binds, depth), self.val(f, ks[1], binds, depth)
+            sg = 1 if n['op'] == '+' else -1
+            if b[0] == 'c':
+                return (a[0], a[1] + sg * b[1])
+            if a[0] == 'c' and sg == 1:
+                return (b[0], a[1] + b[1])
+            raise Unknown('arithmetic on two unknowns')
+        if k == 'UnaryOperator' and n.get('op') == '-':
+            a = self.val(f, kids(n)[0], binds, depth)
+            if a[0] == 'c':
+                return ('c', -a[1])
+            raise Unknown('negated unknown')
+        if k == 'CallExpr':
+            callee = self.prog.funcs.get(n.get('callee', {}).get('fid'))
+            if callee is not None and callee.body is not None and depth < 4:
+                args = [self.val(f, a, binds, depth) for a in kids(n)[1:]]
+                b2 = {q['name']: v for q, v in zip(callee.params, args)}
+                rv = self.run(callee, kids(callee.body), b2, depth + 1)
+                if rv is not None:
+                    return rv
+        raise Unknown(Norm(f).s(n))
+
+    def cond(self, f, n, binds, depth=0):
+        n = strip_casts(n)
+        k = n['k']
+        if isinstance(n.get('cv'), int):
+            return bool(n['cv'])
+        if k == 'BinaryOperator' and n.get('op') in ('&&', '||'):
+            a = self.cond(f, kids(n)[0], binds, depth)
+            if n['op'] == '&&':
+                return a and self.cond(f, kids(n)[1], binds, depth)
+            return a or self.cond(f, kids(n)[1], binds, depth)
+        if k == 'UnaryOperator' and n.get('op') == '!':
+            return not self.cond(f, kids(n)[0], binds, depth)
+        if k == 'CallExpr' and n.get('callee', {}).get('n') == 'engine::is_mate':
+            v = self.val(f, kids(n)[1], binds, depth)
+            if v[0] == 'c':
+                return abs(v[1]) >= self.mate_lo
+            if v[1] == 0:
+                return self.facts['mate']
+            raise Unknown('is_mate of a shifted score')
+        if k in ('BinaryOperator', 'CXXOperatorCallExpr') and n.get('op') in _CMP:
+            ks = kids(n) if k == 'BinaryOperator' else kids(n)[1:]
+            a, b = self.val(f, ks[0], binds, depth), self.val(f, ks[1], binds, depth)
+            op = n['op']
+            if a[0] == 'c' and b[0] == 'c':
+                return _CMP[op](a[1], b[1])
+            if a[0] == 'c':
+                a, b, op = b, a, _SWAP[op]
+            if b[0] != 'c':
+                raise Unknown('comparison of two unknowns')
+            # x + k  op  c   with |x| >= mate_lo >> |k|, |c| in the mate cases
+            if self.facts.get('mate') and abs(a[1]) + abs(b[1]) < self.mate_lo // 2:
+                big = 1 if self.facts['pos'] else -1
+                return _CMP[op](big * self.mate_lo, b[1] - a[1])
+            raise Unknown('sign of a non-mate score')
+        raise Unknown(Norm(f).s(n))
+
+    def run(self, f, stmts, binds, depth=0, track=None):
+        """execute statements; returns the returned value (if a return is reached) else None; binds is updated"""
+        from prog import access_kind
+        for st in stmts:
+            if st is None or st.get('mac') in ('assert', 'ASSERT', 'ASSERT_WITH_MSG'):
+                continue
+            k = st['k']
+            if k == 'CompoundStmt':
+                rv = self.run(f, kids(st), binds, depth, track)
+                if rv is not None:
+                    return rv
+            elif k == 'ReturnStmt':
+                return self.val(f, kids(st)[0], binds, depth)
+            elif k == 'DeclStmt':
+                for v in kids(st):
+                    if v['k'] == 'VarDecl' and kids(v):
+                        try:
+                            binds[v['name']] = self.val(f, kids(v)[0], binds, depth)
+                        except Unknown:
+                            if track is None:
+                                raise
+            elif k == 'IfStmt':
+                ks = kids(st)
+                touches = track is None or any((x.get('ref') or {}).get('n') in track and access_kind(f, x) != 'read'
+                                               for x in walk(st)) or any(x['k'] == 'ReturnStmt' for x in walk(st))
+                if not touches:
+                    continue
+                c = self.cond(f, ks[0], binds, depth)
+                br = ks[1] if c else (ks[2] if len(ks) > 2 else None)
+                if br is not None:
+                    rv = self.run(f, [br], binds, depth, track)
+                    if rv is not None:
+                        return rv
+            elif k in ('BinaryOperator', 'CompoundAssignOperator', 'CXXOperatorCallExpr') and st.get('op', '').endswith('=') and \
+                    st.get('op') not in ('==', '!=', '<=', '>='):
+                ks = kids(st) if k != 'CXXOperatorCallExpr' else kids(st)[1:]
+                name = (strip_casts(ks[0]).get('ref') or {}).get('n')
+                if track is not None and name not in track:
+                    continue
+                rhs = self.val(f, ks[1], binds, depth)
+                if st['op'] == '=':
+                    binds[name] = rhs
+                elif st['op'] in ('+=', '-=') and rhs[0] == 'c' and name in binds:
+                    binds[name] = (binds[name][0], binds[name][1] + (rhs[1] if st['op'] == '+=' else -rhs[1]))
+                else:
+                    raise Unknown('update %s' % st['op'])
+            else:
+                if track is not None and not any((x.get('ref') or {}).get('n') in track and access_kind(f, x) not in ('read',)
+                                                 for x in walk(st)):
+                    continue
+                raise Unknown('statement %s' % k)
+        return None
 
 
 def show(atoms):
